@@ -607,6 +607,7 @@ func (c *c02Run) endToEnd(tier string) {
 		}
 	}
 	c.refusals()
+	c.encodingPaths(tier)
 }
 
 // refusals: "a cell the format cannot spell is refused with an error and nothing is written".  LTSV values with a
